@@ -459,6 +459,18 @@ func (V *Verifier) modifiesNames(ex *Exec, spec *FuncSpec, c *ssa.CallCommon) []
 					}
 				}
 			case *SCall:
+				if x.Fn == "mapsof" {
+					if id0, ok := x.Args[0].(*SStrLit); ok {
+						id := &SIdent{id0.Val}
+						if tmt, isMap := V.specType(id.Name, info.pkg).Underlying().(*types.Map); isMap {
+							vs := sortOf(tmt.Elem())
+							out = append(out, mapDomName(tmt), mapValName(tmt))
+							ex.noteHeap(mapDomName(tmt), ArrS(SInt, ArrS(SInt, SBool)))
+							ex.noteHeap(mapValName(tmt), ArrS(SInt, ArrS(SInt, vs)))
+						}
+					}
+					continue
+				}
 				t := staticType(x.Args[0])
 				if t == nil {
 					ex.fail("modifies %s: cannot type the target", show(e))
@@ -501,7 +513,7 @@ func (V *Verifier) NewExec(fn *ssa.Function, spec *FuncSpec) *Exec {
 		iterLoop: map[string]*ssa.BasicBlock{}, localName: map[string]*ssa.Alloc{},
 		freeVarVals: map[*ssa.FreeVar]Val{}, ifaceSrc: map[string]ifaceOrigin{}, ifacePayload: map[string]Val{},
 		usedSpecs: map[string]bool{}, usedSpecFns: map[string]bool{}, usedAx: map[string]bool{},
-		constArrs: map[string]*Term{}, concatPrefix: map[string]string{}, callCount: map[string]int{},
+		constArrs: map[string]*Term{}, concatPrefix: map[string]string{}, callCount: map[string]int{}, rawElemTy: map[string]types.Type{},
 	}
 	if spec != nil {
 		ex.safety = len(spec.Safety) > 0
